@@ -27,6 +27,7 @@ type Lemma struct {
 	Assume string
 	Iter   int
 	Assert string
+	OnReturn string // default "false": the iteration must not return
 }
 
 type Contract struct {
@@ -299,11 +300,15 @@ func (cs *ContractSet) parseFile(path, pkg string, prefix string, trusted bool) 
 					return bad("looplemma K NAME N :: assume ;; assert")
 				}
 				body := rest[strings.Index(rest, "::")+2:]
-				parts := strings.SplitN(body, ";;", 2)
-				if len(parts) != 2 {
+				parts := strings.SplitN(body, ";;", 3)
+				if len(parts) < 2 {
 					return bad("looplemma needs ;;")
 				}
-				cur.Lemmas = append(cur.Lemmas, Lemma{Loop: k, Name: name, Iter: n, Assume: strings.TrimSpace(parts[0]), Assert: strings.TrimSpace(parts[1])})
+				lm := Lemma{Loop: k, Name: name, Iter: n, Assume: strings.TrimSpace(parts[0]), Assert: strings.TrimSpace(parts[1])}
+				if len(parts) == 3 { // optional: what must hold if the function returns during the iteration(s)
+					lm.OnReturn = strings.TrimSpace(parts[2])
+				}
+				cur.Lemmas = append(cur.Lemmas, lm)
 			case "loop":
 				fs := strings.SplitN(rest, " ", 3)
 				if len(fs) < 3 {
